@@ -234,3 +234,92 @@ def witness_pairs():
     out = bounded_pairs("quick", 0)
     cases = sorted(f["inputs"]["scenario"] for f in out["failures"])
     return dict(inputs={"scenario": "name-pairs"}, cases=cases, failed=["distinct-names-never-silently-merged"] if cases else [])
+
+
+# ------------------------------------------------------------------------------------------ the original name stays the wire name
+WIRE_NAMES = ["_id", "_key", "from", "class", "camelCase", "schema", "modelDump", "copy", "plain", "UPPER", "with_under", "a1b2"]
+
+
+def bounded_wire_names(tier, seed):
+    """`every GraphQL name that becomes a Python name ... the original name stays the wire name`: end to end, snake-casing on
+    and off: response keys, input fields, variables (incl. a variable of a custom scalar with a serializer) and enum
+    values named like keywords / underscore-prefixed / camelCase / BaseModel attributes: the response is accepted and every
+    key readable, the input model and the variables travel under the GraphQL names"""
+    import asyncio
+    import json
+    import httpx
+    from . import e2e
+    fields = " ".join(f"{n}: String" for n in WIRE_NAMES)
+    sdl = (f"scalar Stamp\nenum E {{ from class _x Plain }}\ntype Item {{ {fields} e: E }}\ninput In {{ {fields} }}\n"
+           f"type Query {{ item(i: In, {', '.join(n + ': String' for n in WIRE_NAMES)}, createdAfter: Stamp, from_stamp: Stamp): Item }}\n")
+    var_defs = ", ".join(f"${n}: String" for n in WIRE_NAMES)
+    var_use = ", ".join(f"{n}: ${n}" for n in WIRE_NAMES)
+    q = (f"query Q($i: In, {var_defs}, $createdAfter: Stamp, $from_stamp: Stamp) {{ item(i: $i, {var_use}, createdAfter: $createdAfter, from_stamp: $from_stamp) "
+         f"{{ {' '.join(WIRE_NAMES)} e }} }}")
+    cases, fails = 0, []
+    for snake in (True, False):
+        cases += 1
+        g = None
+        bad = []
+        try:
+            g = e2e.generate_client(sdl, q, convert_to_snake_case=snake,
+                                    scalars={"Stamp": {"type": "str", "serialize": "pyvc_stamp.ser", "parse": "pyvc_stamp.par"}})
+            import sys
+            import types
+            m = types.ModuleType("pyvc_stamp")
+            m.ser = lambda v: "ser:" + str(v)
+            m.par = lambda v: "par:" + str(v)
+            sys.modules["pyvc_stamp"] = m
+            sent = []
+            data = {"item": dict({n: "v-" + n for n in WIRE_NAMES}, e="from")}
+
+            def handler(request):
+                sent.append(json.loads(request.content))
+                return httpx.Response(200, json={"data": data})
+            mod = g.module("client")
+            it = g.module("input_types")
+            In = it.In
+            by_alias = {(f.alias or n): n for n, f in In.model_fields.items()}
+            if set(by_alias) != set(WIRE_NAMES):
+                bad.append(f"input-fields-keep-their-graphql-names: {sorted(set(WIRE_NAMES) ^ set(by_alias))}")
+            inp = In(**{n: "i-" + n for n in WIRE_NAMES if n in by_alias})
+            import inspect
+            client = mod.Client(url="http://x/graphql", http_client=httpx.AsyncClient(transport=httpx.MockTransport(handler)))
+            params = [p for p in inspect.signature(client.q).parameters if p not in ("kwargs",)]
+            if len(params) != len(WIRE_NAMES) + 3:
+                bad.append(f"one-parameter-per-variable: {params}")
+            # map python parameter -> graphql name through the variables dict of a call with distinct values
+            kw = {p: f"arg-{k}" for k, p in enumerate(params) if p != "i"}
+            kw["i"] = inp
+            res = asyncio.run(client.q(**kw))
+            got = sent[-1]["variables"]
+            want_names = set(WIRE_NAMES) | {"i", "createdAfter", "from_stamp"}
+            if set(got) != want_names:
+                bad.append(f"variables-travel-under-their-graphql-names: {sorted(set(got) ^ want_names)}")
+            if got.get("i") != {n: "i-" + n for n in WIRE_NAMES}:
+                bad.append("input-model-travels-under-the-graphql-field-names")
+            for special in ("createdAfter", "from_stamp"):
+                if not str(got.get(special, "")).startswith("ser:arg-"):
+                    bad.append(f"custom-scalar-variable-serialised-once: {special}={got.get(special)!r}")
+            item = res.item
+            falias = {(f.alias or n): n for n, f in type(item).model_fields.items()}
+            missing = [n for n in WIRE_NAMES if n not in falias]
+            if missing:
+                bad.append(f"response-keys-are-fields-of-the-model: {missing}")
+            wrong = [n for n in WIRE_NAMES if n in falias and getattr(item, falias[n]) != "v-" + n]
+            if wrong:
+                bad.append(f"response-values-readable-under-the-mapped-name: {wrong}")
+            en = g.module("enums").E
+            if {x.value for x in en} != {"from", "class", "_x", "Plain"}:
+                bad.append("enum-values-keep-their-graphql-names")
+        except Exception as e:      # noqa
+            bad.append(f"raises-{type(e).__name__}: {str(e)[:160]}")
+        finally:
+            if g is not None:
+                g.cleanup()
+        if bad:
+            fails.append(dict(inputs=dict(scenario=f"wire-names:snake={snake}"), failed=bad, outcome=None))
+    return dict(function="ariadne_codegen.main:client", name="bounded.wire-names", kind="bounded stand-in (end-to-end, native)",
+                domain=f"{len(WIRE_NAMES)} names (underscore-prefixed, keywords, camelCase, BaseModel attributes, upper case, digits) as response keys, "
+                       "input fields and variables + 2 custom-scalar variables + 4 enum values, snake-casing on/off",
+                cases=cases, failed=len(fails), failures=fails)
